@@ -1257,7 +1257,8 @@ func stateAnyCommentStart(s *Scanner, c byte) state {
 		// any symbol inline user comment
 		s.annotation = annotationNone
 		s.step = stateInlineComment
-		return scanContinue
+		// An empty comment (`#` directly followed by a line break) ends here.
+		return stateInlineComment(s, c)
 	} else if s.index < s.dataSize && s.data[s.index] == '#' { // third #
 		s.annotation = annotationNone
 		s.step = stateMultiLineComment
